@@ -134,12 +134,14 @@ struct MaskedWorld : World {
     // "changing every one of its shares": compared on the raw 8-byte share slots that belong to the share count
     static void check_shares_changed(Ctx &c, const uint8_t *before, const uint8_t *after, int shares, const std::string &site)
     {
-        if (c.tape != TAPE_RANDOM || !tape_drawn_distinct_nonzero()) return;
-        c.run->probe("randomize.shares_checked");
+        // judged on the random tape only; words that happen to repeat or be zero excuse an unchanged share,
+        // drawing nothing at all does not (then no share can have changed)
+        if (c.tape != TAPE_RANDOM || (g_tape.ndrawn > 0 && !tape_drawn_distinct_nonzero())) return;
+        c.run->probe(g_tape.ndrawn ? "randomize.shares_checked" : "randomize.drew_nothing");
         for (int s = 0; s < shares; ++s)
             if (memcmp(before + 8 * s, after + 8 * s, 8) == 0)
                 c.run->violation("C10", "randomize_changes_every_share", site,
-                                 fmt("share %d of %d unchanged by re-randomisation although the random words drawn were distinct and non-zero", s, shares));
+                                 fmt("share %d of %d unchanged by re-randomisation on the random tape (%u random words drawn, all distinct and non-zero)", s, shares, g_tape.ndrawn));
     }
 
     void exec(const Plan &plan, Run &run) override
